@@ -370,7 +370,7 @@ fn main() {
                 let fl = a.get("flush", "0");
                 cfg.flush_after = if fl == "mix" { pick(&mut rng, &[0u32, 1, 1, 2, 2, 3, 7]) } else { fl.parse().unwrap() };
                 let mp = a.get("merge", "none");
-                cfg.merge = if mp == "mix" { pick(&mut rng, &["none", "none", "log", "any2"]).to_string() } else { mp };
+                cfg.merge = if mp == "mix" { pick(&mut rng, &["none", "none", "log", "any2", "lazy2"]).to_string() } else { mp };
                 let so = a.get("sorted", "");
                 cfg.sorted = if so == "mix" { pick(&mut rng, &["", "", "v_asc", "v_desc"]).to_string() } else { so };
                 let ops = gen_history(&mut rng, nops, a.flag("delete-all"), avoid.contains("f0"), &["a", "b", "c"], a.flag("term-deletes"));
